@@ -21,7 +21,11 @@ Theory groups:
            quantifier-free obligations, never to an e-matching axiom set)
 
 Value kinds and hooks (all follow the wrapping pattern of kr.py - the previous hook is kept and everything that is not recognised
-falls through to it - and are active only for executors that carry the flag `ex.anova = True`): see the second half of this file.
+falls through to it - and are active only for the value classes defined here or for executors that carry the flag `ex.anova = True`):
+see the second half of this file (KMap / KMap2 dicts, IMat2 / IRows integer matrices, MaskedSel, CfsList, attribute stores with the
+`attr_havoc` declaration, methods of `self` as VFunc fields, list comprehension over a method of `self`, tokens for whole tensors).
+Handlers that must not depend on the import order of the mx_ modules (np.mean, np.sum, np.unique, np.zeros(dtype=int), np.array,
+np.asanyarray) are plain functions handed to the units through `callees={...}`.
 """
 import ast
 import z3
